@@ -20,6 +20,10 @@ CHECKS = {
  'C11': (MC, "skeleton DEX (dexasm) whose method is a seeded template of 5..8 concrete opcodes + payloads with symbolic branch offsets / switch targets / payload references / try start, count and handler addresses (3-4 symbolic quantities per template, full field width); the real DEX() + MethodAnalysis run on every path. Obligations: successor sets equal the targets the last instruction allows, each child block starts at its target, predecessor lists are the inverse", '5/C10-C12,C40', 'symbolic execution of DEX parsing + MethodAnalysis on skeleton overlays'),
  'C12': (MC, "skeleton DEX (dexasm) whose method is a seeded template of 5..8 concrete opcodes + payloads with symbolic branch offsets / switch targets / payload references / try start, count and handler addresses (3-4 symbolic quantities per template, full field width); the real DEX() + MethodAnalysis run on every path. Obligations: a block reports a try range iff it overlaps one, with that range and its handler blocks", '5/C10-C12,C40', 'symbolic execution of DEX parsing + MethodAnalysis on skeleton overlays'),
  'C40': (MC, "skeleton DEX (dexasm) whose method is a seeded template of 5..8 concrete opcodes + payloads with symbolic branch offsets / switch targets / payload references / try start, count and handler addresses (3-4 symbolic quantities per template, full field width); the real DEX() + MethodAnalysis run on every path. Obligations: block boundaries, edge and handler offsets are sweep offsets; get_special_ins is the payload at the encoded reference (aligned and misaligned)", '5/C10-C12,C40', 'symbolic execution of DEX parsing + MethodAnalysis on skeleton overlays'),
+ 'C13': (MC, "skeleton DEX (dexasm: 2 classes, 5 methods, 4 fields, external and array-receiver members) whose method LA;->m1 has 14 invoke / field / const-string / new-instance / const-class slots; the pool-index operands of one slot group at a time are symbolic over their whole id table; real DEX() + Analysis.add + create_xref per path; every getter compared with a reference computed from the id tables. Obligations: callees with offsets, internal vs single external stub, caller lists, call-graph edges", '5/C13-C16', 'symbolic execution of DEX parsing + Analysis.create_xref on skeleton overlays'),
+ 'C14': (MC, "skeleton DEX (dexasm: 2 classes, 5 methods, 4 fields, external and array-receiver members) whose method LA;->m1 has 14 invoke / field / const-string / new-instance / const-class slots; the pool-index operands of one slot group at a time are symbolic over their whole id table; real DEX() + Analysis.add + create_xref per path; every getter compared with a reference computed from the id tables. Obligations: reads/writes on the FieldAnalysis of the defining class, method lists, one FieldAnalysis per field", '5/C13-C16', 'symbolic execution of DEX parsing + Analysis.create_xref on skeleton overlays'),
+ 'C15': (MC, "skeleton DEX (dexasm: 2 classes, 5 methods, 4 fields, external and array-receiver members) whose method LA;->m1 has 14 invoke / field / const-string / new-instance / const-class slots; the pool-index operands of one slot group at a time are symbolic over their whole id table; real DEX() + Analysis.add + create_xref per path; every getter compared with a reference computed from the id tables. Obligations: string xrefs and new-instance / const-class lists in both directions, nothing else", '5/C13-C16', 'symbolic execution of DEX parsing + Analysis.create_xref on skeleton overlays'),
+ 'C16': (MC, "the same two classes analysed as one DEX and as two DEX files added in both orders; the operands of one slot group are symbolic and mapped through each file's own index space (ite chain over the same variable); all normalised getters must agree", '5/C13-C16', 'symbolic execution of three analyses per path'),
  'C17': (MC, "every history of <= 2 (thorough 3) operations over 8 rename/reload operations on a skeleton DEX whose two method name_idx words are symbolic over the identifier strings of the pool (name sharing is the solver's choice); all 7 items and the const-string operand compared with a dictionary model after every step; the known finding is confined to its region predicate", '5/C17', 'symbolic execution of DEX parsing + rename API over bounded histories'),
  'C23': (MC, "writer.string on strings of 0..2 (thorough 0..3) fully symbolic code points (0..0x10FFFF incl. lone surrogates); the produced literal is lexed by a Java unicode-escape + string-escape reference inside the same symbolic run and compared as UTF-16 code units", '5/C23', 'symbolic execution over symbolic strings with %x expanded to symbolic digits'),
  'C24': (MC, "decompiler.util.get_type and core.dex.get_type on class descriptors whose 1..13 (thorough 16) body characters are symbolic (any BMP character, '/' as separator), 0..2 array dimensions, all primitives", '5/C24', 'symbolic execution over symbolic strings (SStr, SymDict)'),
